@@ -51,4 +51,6 @@ func run(c *Ctx) {
 		ml.RecordOutcome(c, ml.ScJoinRace(true, hevc), "c02")
 		ml.RecordOutcome(c, ml.ScStapParamsetsIdr(hevc), "c02")
 	}
+	ml.RecordOutcome(c, ml.ScGopReplayNonVideo(false), "c02")
+	ml.RecordOutcome(c, ml.ScGopReplayNonVideo(true), "c02")
 }
